@@ -12,6 +12,7 @@ PROPERTY = "C03"
 LEVEL = "exploration"
 
 DIVISORS = [d for d in range(1, 61) if 360 % d == 0]  # 19 divisors of 360 in [1, 60]
+FLOAT_STEPS = [1.5, 2.5, 4.5, 7.5, 22.5, 5.0, 12.0]      # non-integer steps that divide 360, and float spellings
 ALPHAS = [1e-4, 1e-3, 0.01, 0.1, 0.3]
 
 
@@ -142,7 +143,7 @@ def case_seed(seed, alpha):
 
 def main(ctx):
     ctx.rule = ("complete product: point cloud {3 model samples, rounded (ties), heavy-tailed, lattice} x n x seed x alpha in "
-                "{1e-4,1e-3,.01,.1,.3} x deg_step in the 19 divisors of 360 in [1,60]; plus sample=None (drawn from the "
+                "{1e-4,1e-3,.01,.1,.3} x deg_step in the 19 integer divisors of 360 in [1,60] and 7 float steps (1.5, 2.5, 4.5, 7.5, 22.5, 5.0, 12.0); plus sample=None (drawn from the "
                 "model, global RNG seeded). evaluations = contours; non-trivial = at least 2 sample points lie beyond each "
                 "tangent line (n*alpha >= 2).")
     ctx.assumptions = ["the empirical quantile may follow any Hyndman-Fan definition: offset must lie between the order "
@@ -150,7 +151,7 @@ def main(ctx):
                        "orientation (clockwise/counter-clockwise) and start angle of the normals are not prescribed"]
     q = ctx.quick
     ns = (50, 200, 1000, 5000) if q else (50, 200, 1000, 5000, 20000)
-    steps = DIVISORS
+    steps = DIVISORS + FLOAT_STEPS
     seeds = (1, 2) if q else (1, 2, 3, 4)
     cases = []
     for kind in ("hs_tz", "ew_ew", "ln_normal", "rounded", "heavy", "lattice"):
